@@ -14,6 +14,13 @@
 EXTENDS Integers, Sequences, FiniteSets, TLC, Json, IOUtils, Rat, SluStore, SluFactor
 
 Tr == ndJsonDeserialize(IOEnv.TRACE)
+\* MODE = "light": storage / allocator clauses only (the numeric replay of the factorization is skipped;
+\* it is carried by the runs of C01-C06 on the same code paths)
+Light == "MODE" \in DOMAIN IOEnv /\ IOEnv.MODE = "light"
+\* BITWISE = "all": the library under test was built with the bundled C BLAS loops, whose results do not depend on
+\* the alignment of their operands, so runs are comparable bit for bit whatever the data.  Otherwise (vendor BLAS)
+\* bit-for-bit agreement is demanded only when the reference run was exact (D2), see DESIGN C07.
+BitwiseAll == "BITWISE" \in DOMAIN IOEnv /\ IOEnv.BITWISE = "all"
 
 Has(r, f) == f \in DOMAIN r
 IsCplx(ty) == ty \in {"c", "z"}
@@ -170,25 +177,181 @@ GstrfVerdict(ev) ==
         \cup LedgerBad(ev)
   IN [bad |-> bad, arb |-> fv.arb, cov |-> fv.cov]
 
-Verdict(ev) ==
+(***************************************************************************)
+(* Memory events (hooks in [sdcz]memory.c, DESIGN 4.2): safety layer of     *)
+(* SluMem evaluated on the logged allocator state -- accounting identities  *)
+(* of the two-ended stack, regions ordered / disjoint / inside the stack,   *)
+(* cursors inside capacity, a granted expansion grows.  pm = previous       *)
+(* memory event of the same call (or <<>>).                                 *)
+(***************************************************************************)
+DWordOf(ty) == CASE ty = "s" -> 4 [] ty = "d" -> 8 [] ty = "c" -> 8 [] ty = "z" -> 16
+IsUser(ev) == ev.model = 1
+SaneStack(ev) == IsUser(ev) => LET s == ev.st IN /\ 0 <= s[3] /\ s[3] <= s[4] /\ s[4] <= s[1]
+                                                 /\ s[2] = s[3] + (s[1] - s[4])
+ExValid(ev) == Has(ev, "ex") /\ \A t \in 1..4 : ev.ex[t][2] >= 0 /\ (IF IsUser(ev) THEN ev.ex[t][1] >= 0 ELSE ev.ex[t][1] = 1)
+RegionsOrdered(ev, dw, liw) ==
+  (IsUser(ev) /\ Has(ev, "ex")) =>
+     LET w(t) == IF t <= 2 THEN dw ELSE liw IN
+     /\ \A t \in 1..3 : ev.ex[t][1] + ev.ex[t][2] * w(t) <= ev.ex[t + 1][1]
+     /\ ev.ex[4][1] + ev.ex[4][2] * liw <= ev.st[3]
+     /\ \A t \in 1..2 : (ev.ex[t][1] + ev.al) % 8 = 0
+MemVerdict(pm, ev, ty, liw) ==
+  LET dw == DWordOf(ty)
+      e == ev.e
+      \* points at which the factorization goes on with this allocator state (an expansion request that is
+      \* immediately followed by a refusal of its companion request and an error return is not one of them)
+      stable == e \in {"Col", "WorkFree"} \/ (e = "InitReturn" /\ ev.ret = 0)
+      bad ==
+        (IF stable /\ ~SaneStack(ev) THEN {"C08.stack_sane"} ELSE {})
+        \cup (IF stable /\ e # "WorkFree" /\ ~(ExValid(ev) /\ RegionsOrdered(ev, dw, liw)) THEN {"C08.regions_ordered"} ELSE {})
+        \cup (IF e = "Col" /\ ~(ev.nextl <= ev.nz[3] /\ ev.nextlu <= ev.nz[1] /\ ev.nextu <= ev.nz[2]) THEN {"C08.cursor_in_capacity"} ELSE {})
+        \cup (IF e = "UMalloc" /\ pm # <<>> /\ Has(pm, "st") /\ ev.ok = 1 /\
+                 ~(ev.off >= pm.st[3] /\ ev.off + ev.bytes <= pm.st[4] /\ ev.st[2] = pm.st[2] + ev.bytes /\ ev.bytes >= 0)
+              THEN {"C08.stack_push_accounting"} ELSE {})
+        \cup (IF e = "UMalloc" /\ pm # <<>> /\ Has(pm, "st") /\ ev.ok = 0 /\ ev.st # pm.st THEN {"C08.refused_push_changed_stack"} ELSE {})
+        \cup (IF e = "Expand" /\ pm # <<>> /\ pm.e = "ExpandBegin" /\ pm.numexp > 0 /\ ev.ok = 1 /\ ev.keep_prev = 0 /\ ~(ev.new_len > pm.prev_len)
+              THEN {"C08.expand_grows"} ELSE {})
+      cov == (IF stable THEN {"C08.alloc_state_checked"} ELSE {}) \cup (IF e = "Expand" /\ pm # <<>> /\ pm.e = "ExpandBegin" /\ pm.numexp > 0 THEN {"C08.expansion_seen"} ELSE {})
+  IN [bad |-> bad, arb |-> {}, cov |-> cov]
+MemFailure(ev) == (ev.e = "Xpand" /\ ev.ok = 0) \/ (ev.e = "InitReturn" /\ ev.ret # 0 /\ ev.lwork # -1)
+IsMemEvent(ev) == ev.e \in {"MemSetup", "UMalloc", "UFree", "ExpandBegin", "Expand", "Xpand", "InitExpands", "InitRetry", "WorkInit", "InitReturn", "WorkFree", "Col", "FactEnd"}
+
+(***************************************************************************)
+(* ?gssvx / ?gsisx (expert drivers): C05 (+ C02-C04 on the matrix that was  *)
+(* factored, C06 reuse clauses, C07/C08 storage clauses).                    *)
+(* sc = scenario context: [ref, memfail] (reference factor digests of the   *)
+(* first successful run of the scenario; whether a memory failure event was *)
+(* seen since the last call returned).                                      *)
+(***************************************************************************)
+\* ?QuerySpace: bytes held by the returned factors and needed by a factorization (32-bit indices)
+MemUsageOK(ev) ==
+  LET n == ev.n  dw == DWordOf(ev.ty)  iw == 4  panel == ev.tune[1]
+      ilu == ev.fn = "gsisx"
+      forlu == (4 * n + 3) * iw + Len(ev.L.nzval) * dw + Len(ev.L.rowind) * iw + (n + 1) * iw + Len(ev.U.nzval) * (dw + iw)
+      total == forlu + (2 * panel + (IF ilu THEN 9 ELSE 4) + 3) * n * iw + (panel + 1) * n * dw
+  IN /\ TokOK(ev.mem[1]) /\ TokOK(ev.mem[2])
+     /\ Dy(ev.mem[1]) = <<forlu, 1>> /\ Dy(ev.mem[2]) = <<total, 1>>
+EquedOK(q) == q \in {"N", "R", "C", "B"}
+RowEqu(q) == q \in {"R", "B"}
+ColEqu(q) == q \in {"C", "B"}
+RealTok(t) == <<Dy(t), RZero>>
+GssvxVerdict(ev, sc) ==
+  LET n == ev.n  ty == ev.ty  cplx == IsCplx(ty)
+      info == ev.info
+      tr == ev.fmt = "NR"
+      fact == ev.opts.Fact                      \* 0 DOFACT 1 SamePattern 2 SamePattern_SameRowPerm 3 FACTORED
+      query == Has(ev, "work") /\ ev.work.lwork = -1
+      q == ev.equed
+      \* effective "notran" after the storage swap of the driver
+      notranEff == IF tr THEN ev.opts.Trans # 0 ELSE ev.opts.Trans = 0
+      aok == \A t \in 1..Len(ev.A0) : ValOK(ev.A0[t][3], cplx)
+      a1ok == \A k \in 1..Len(ev.A1v) : ValOK(ev.A1v[k], cplx)
+      rcok == \A i \in 1..n : TokOK(ev.R[i]) /\ TokOK(ev.C[i])
+      \* --- A after the call: diag(R) AA diag(C) restricted to equed, AA = A (NC) or A' (NR)
+      scaleOf(t) == LET i == IF tr THEN ev.A0[t][2] ELSE ev.A0[t][1]
+                        j == IF tr THEN ev.A0[t][1] ELSE ev.A0[t][2]
+                        v0 == Val(ev.A0[t][3], cplx)
+                        v1 == IF RowEqu(q) THEN CMul(RealTok(ev.R[i + 1]), v0) ELSE v0
+                    IN IF ColEqu(q) THEN CMul(v1, RealTok(ev.C[j + 1])) ELSE v1
+      needRC == RowEqu(q) \/ ColEqu(q)
+      ascaled == IF ~needRC THEN \A t \in 1..Len(ev.A0) : ev.A1v[t] = ev.A0[t][3]
+                 ELSE (aok /\ a1ok /\ rcok) => \A t \in 1..Len(ev.A0) : Val(ev.A1v[t], cplx) = scaleOf(t)
+      ascaledChecked == ~needRC \/ (aok /\ a1ok /\ rcok)
+      \* --- B after the call
+      solved == (info = 0 \/ info = n + 1) /\ ~query /\ Has(ev, "B0") /\ ev.nrhs > 0
+      bscale(i) == IF notranEff /\ RowEqu(q) THEN ev.R[i] ELSE IF ~notranEff /\ ColEqu(q) THEN ev.C[i] ELSE <<1, 0>>
+      bneeds == (notranEff /\ RowEqu(q)) \/ (~notranEff /\ ColEqu(q))
+      bok == \A k \in 1..ev.nrhs : \A i \in 1..n : ValOK(ev.B0[k][i], cplx) /\ ValOK(ev.B1[k][i], cplx)
+      bscaled == IF ~(solved /\ bneeds) THEN (Has(ev, "B0") => ev.B_same = 1)
+                 ELSE (bok /\ rcok) => \A k \in 1..ev.nrhs : \A i \in 1..n :
+                         Val(ev.B1[k][i], cplx) = CMul(RealTok(bscale(i)), Val(ev.B0[k][i], cplx))
+      \* --- factorization clauses on the matrix that was factored (the values of A after the call)
+      Fent == [t \in 1..Len(ev.A0) |-> <<ev.A0[t][1], ev.A0[t][2], ev.A1v[t]>>]
+      F == IF a1ok THEN DenseOf(Fent, n, n, cplx, tr) ELSE <<>>
+      factored == fact # 3 /\ ~query /\ info >= 0
+      fv == IF factored /\ ~Light THEN FactorVerdict(ev, F, PatternOf(ev.A0, tr), n, n, Dy(UTok(ev)), UOK(ev), fact = 2, ev.fn = "gsisx")
+            ELSE [bad |-> {}, arb |-> {}, cov |-> {}, d2 |-> FALSE]
+      \* --- solution: op(A0) X = B0 for the caller's original A and B
+      opname == IF ev.opts.Trans = 0 THEN "N" ELSE IF ev.opts.Trans = 1 \/ ~cplx THEN "T" ELSE "C"
+      A == DenseOf(ev.A0, n, n, cplx, FALSE)
+      opA == [ij \in Rows(n) \X Rows(n) |-> IF opname = "N" THEN A[ij] ELSE IF opname = "T" THEN A[<<ij[2], ij[1]>>] ELSE CConj(A[<<ij[2], ij[1]>>])]
+      asmall == \A t \in 1..Len(ev.A0) : ATokSmall(ev.A0[t][3], cplx)
+      sv == IF solved /\ ev.fn = "gssvx" /\ ~Light THEN SolveVerdict(ev, opA, aok /\ asmall, n, ev.X1, cplx, "C05.residual")
+            ELSE [arb |-> {}, cov |-> {}, nexact |-> 0]
+      \* --- storage clauses (C07 / C08)
+      haswork == Has(ev, "work")
+      digs == IF Has(ev, "L") /\ Has(ev.L, "dig") /\ Has(ev, "U") /\ Has(ev.U, "dig") THEN <<ev.L.dig, ev.L.digs, ev.U.dig, ev.U.digs, ev.perm_r, ev.perm_c, ev.L.nnz, ev.U.nnz>> ELSE <<>>
+      bad == fv.bad
+        \cup (IF ~EquedOK(q) THEN {"C05.equed_letter"} ELSE {})
+        \cup (IF EquedOK(q) /\ ~query /\ info >= 0 /\ ~ascaled THEN {"C05.A_scaled_as_equed"} ELSE {})
+        \cup (IF EquedOK(q) /\ ~query /\ info >= 0 /\ ~bscaled THEN {"C05.B_scaled_as_documented"} ELSE {})
+        \cup (IF fact = 0 /\ ev.opts.Equil = 0 /\ ~query /\ info >= 0 /\ q # "N" THEN {"C05.equed_without_equil"} ELSE {})
+        \cup (IF ev.Astruct_same # 1 THEN {"C05.A_structure_modified"} ELSE {})
+        \cup (IF Has(ev, "padB_same") /\ (ev.padB_same # 1 \/ ev.padX_same # 1) THEN {"C05.padding_written"} ELSE {})
+        \cup (IF info > 0 /\ info <= n /\ Has(ev, "X_same") /\ ev.X_same # 1 THEN {"C04.X_written_on_singular"} ELSE {})
+        \cup (IF info > 0 /\ info <= n /\ Has(ev, "B_same") /\ ev.B_same # 1 THEN {"C04.B_modified"} ELSE {})
+        \cup (IF fact = 3 /\ info >= 0 /\ ~(ev.same.Lval = 1 /\ ev.same.Uval = 1 /\ ev.same.Lstr = 1 /\ ev.same.Ustr = 1 /\ ev.same.perm_c = 1 /\ ev.same.perm_r = 1)
+              THEN {"C06.resolve_altered_factors"} ELSE {})
+        \cup (IF haswork /\ ev.work.guards_ok # 1 THEN {"C08.guard_overrun"} ELSE {})
+        \cup (IF sc.memfail /\ ~(info > n) THEN {"C08.shortage_not_reported"} ELSE {})
+        \cup (IF query /\ ~(ev.same.perm_c = 1 /\ ev.same.perm_r = 1 /\ ev.same.etree = 1 /\ ev.same.R = 1 /\ ev.same.C = 1 /\ ev.same.equed = 1
+                           /\ ev.same.Lval = 1 /\ ev.same.Uval = 1 /\ (\A t \in 1..Len(ev.A0) : ev.A1v[t] = ev.A0[t][3])
+                           /\ (Has(ev, "B_same") => ev.B_same = 1 /\ ev.X_same = 1))
+              THEN {"C08.query_not_pure"} ELSE {})
+        \cup (IF query /\ ~(info > n) THEN {"C08.query_info"} ELSE {})
+        \cup (IF sc.ref # <<>> /\ (sc.refd2 \/ BitwiseAll) /\ factored /\ info = 0 /\ digs # <<>> /\ digs # sc.ref THEN {"C07.storage_changed_result"} ELSE {})
+        \* structure and permutations never depend on rounding: compared in every case
+        \cup (IF sc.ref # <<>> /\ factored /\ info = 0 /\ digs # <<>> /\ ~(sc.refd2 \/ BitwiseAll)
+                 /\ <<digs[2], digs[4], digs[5], digs[6], digs[7], digs[8]>> # <<sc.ref[2], sc.ref[4], sc.ref[5], sc.ref[6], sc.ref[7], sc.ref[8]>>
+              THEN {"C07.storage_changed_structure"} ELSE {})
+        \cup (IF factored /\ info = 0 /\ sc.memev /\ ev.expansions # sc.nexp THEN {"C07.expansions_count"} ELSE {})
+        \cup (IF factored /\ info = 0 /\ Has(ev, "L") /\ Has(ev.L, "rowind") /\ ev.itsz = 4 /\ ~MemUsageOK(ev) THEN {"C07.mem_usage"} ELSE {})
+        \cup (IF info < 0 THEN {"C18.unexpected_negative_info"} ELSE {})
+        \cup (IF ~query /\ info >= 0 /\ info <= n + 1 THEN LedgerBad(ev) ELSE {})
+      cov == fv.cov \cup sv.cov
+        \cup (IF EquedOK(q) /\ needRC /\ ascaledChecked THEN {"C05.A_scaling_exact"} ELSE {})
+        \cup (IF solved /\ bneeds /\ bok /\ rcok THEN {"C05.B_scaling_exact"} ELSE {})
+        \cup (IF sc.ref # <<>> /\ (sc.refd2 \/ BitwiseAll) /\ factored /\ info = 0 /\ digs # <<>> THEN {"C07.compared_bitwise"} ELSE {})
+        \cup (IF sc.ref # <<>> /\ ~(sc.refd2 \/ BitwiseAll) /\ factored /\ info = 0 /\ digs # <<>> THEN {"C07.compared_structure"} ELSE {})
+        \cup (IF haswork /\ ev.work.lwork > 0 THEN {"C08.user_workspace_run"} ELSE {})
+        \cup (IF factored /\ info = 0 /\ sc.memev THEN {"C07.expansions_" \o (IF sc.nexp = 0 THEN "0" ELSE IF sc.nexp < 3 THEN "1-2" ELSE "3+")} ELSE {})
+        \cup (IF query THEN {"C08.query_checked"} ELSE {})
+        \cup (IF sc.memfail THEN {"C08.shortage_seen"} ELSE {})
+        \cup (IF q # "N" THEN {"C05.equed_" \o q} ELSE {})
+  IN [bad |-> bad, arb |-> fv.arb \cup sv.arb, cov |-> cov, digs |-> IF factored /\ info = 0 THEN digs ELSE <<>>, d2 |-> fv.d2]
+
+Verdict(ev, pm, sc) ==
   IF ev.e = "Ret" THEN
      (CASE ev.fn = "gssv" -> GssvVerdict(ev)
         [] ev.fn = "gstrf" -> GstrfVerdict(ev)
+        [] ev.fn \in {"gssvx", "gsisx"} -> GssvxVerdict(ev, sc)
         [] OTHER -> [bad |-> {}, arb |-> {}, cov |-> {"unjudged"}])
   ELSE IF ev.e = "Done" THEN
      [bad |-> (IF ev.status # "ok" THEN {"C19.abnormal_end_" \o ev.status} ELSE {}), arb |-> {}, cov |-> {}]
   ELSE IF ev.e = "Ledger" THEN
      [bad |-> (IF ev.ledger.live # 0 THEN {"C19.leak_at_end"} ELSE {}) \cup LedgerBad(ev), arb |-> {}, cov |-> {"C19.ledger_end"}]
+  ELSE IF IsMemEvent(ev) THEN MemVerdict(pm, ev, sc.ty, sc.liw)
   ELSE [bad |-> {}, arb |-> {}, cov |-> {}]
 
-VARIABLES l
-vars == <<l>>
-TInit == l = 1
+VARIABLES l, pm, sc
+vars == <<l, pm, sc>>
+NoCtx == [ref |-> <<>>, refd2 |-> FALSE, memfail |-> FALSE, ty |-> "d", liw |-> 4, id |-> "", nexp |-> 0, memev |-> FALSE]
+TInit == l = 1 /\ pm = <<>> /\ sc = NoCtx
 TNext == /\ l <= Len(Tr)
-         /\ LET ev == Tr[l]  v == Verdict(ev) IN
-            PrintT(ToJson([line |-> l, id |-> (IF Has(ev, "id") THEN ev.id ELSE ""), e |-> ev.e,
-                           fn |-> (IF Has(ev, "fn") THEN ev.fn ELSE ""),
-                           bad |-> v.bad, arb |-> v.arb, cov |-> v.cov]))
+         /\ LET ev == Tr[l]  v == Verdict(ev, pm, sc) IN
+            /\ PrintT(ToJson([line |-> l, id |-> (IF Has(ev, "id") THEN ev.id ELSE sc.id), e |-> ev.e,
+                              fn |-> (IF Has(ev, "fn") THEN ev.fn ELSE ev.e),
+                              bad |-> v.bad, arb |-> v.arb, cov |-> v.cov]))
+            /\ pm' = IF IsMemEvent(ev) THEN ev ELSE IF ev.e \in {"RedZone", "AllocFail", "BadFree"} THEN pm ELSE <<>>
+            /\ sc' = IF ev.e = "Reset" THEN [NoCtx EXCEPT !.ty = ev.ty, !.id = ev.id]
+                     ELSE IF IsMemEvent(ev) THEN
+                          [sc EXCEPT !.memfail = sc.memfail \/ MemFailure(ev), !.memev = TRUE,
+                                     !.nexp = IF ev.e = "Expand" /\ ev.ok = 1 /\ pm # <<>> /\ pm.e = "ExpandBegin" /\ pm.numexp > 0 THEN sc.nexp + 1 ELSE sc.nexp]
+                     ELSE IF ev.e = "Ret" THEN
+                          [sc EXCEPT !.memfail = FALSE, !.liw = ev.itsz, !.nexp = 0, !.memev = FALSE,
+                                     !.ref = IF sc.ref = <<>> /\ Has(v, "digs") THEN v.digs ELSE sc.ref,
+                                     !.refd2 = IF sc.ref = <<>> /\ Has(v, "digs") THEN v.d2 ELSE sc.refd2]
+                     ELSE sc
          /\ l' = l + 1
 TraceSpec == TInit /\ [][TNext]_vars
 TraceAccepted == TLCGet("stats").diameter - 1 = Len(Tr)
